@@ -25,6 +25,8 @@ pub struct Outcome<S, A> {
     /// states of the first layer that contains one
     pub violations: Vec<(usize, Vec<A>, S, String)>,
     pub completed_depth: usize,
+    /// one actual explored history: the action path to the last state of the deepest layer
+    pub sample: Option<(usize, Vec<A>, S)>,
 }
 
 struct Node<S, A> {
@@ -116,7 +118,32 @@ where
         sizes.push(next.len() as u64);
         layers.push(next);
     }
+    // a sample history: the last node of the deepest non-empty layer
+    let sample = {
+        let depth = layers.len() - 1;
+        if layers[depth].is_empty() {
+            None
+        } else {
+            let i = layers[depth].len() - 1;
+            let mut acts = Vec::new();
+            let mut idx = i;
+            let mut init_index = 0usize;
+            for d in (0..=depth).rev() {
+                let n = &layers[d][idx];
+                if let Some(a) = &n.action {
+                    acts.push(a.clone());
+                }
+                if d == 0 {
+                    init_index = idx;
+                }
+                idx = n.parent;
+            }
+            acts.reverse();
+            Some((init_index, acts, layers[depth][i].state.clone()))
+        }
+    };
     Outcome {
+        sample,
         unique_states: seen.len() as u64,
         transitions,
         layers: sizes,
@@ -140,6 +167,13 @@ pub fn finish<S: Debug, A: Debug>(ctx: &crate::ev::Ctx, key: &str, o: &Outcome<S
             key,
             msg,
             serde_json::json!({"kind": "machine", "init_index": init, "actions": acts, "final_state": if st.len() > 1500 { st[..1500].to_string() } else { st }}),
+        );
+    }
+    if let Some((init, acts, last)) = &o.sample {
+        let st = format!("{:?}", last);
+        ctx.sample_tag(
+            &format!("{}_history", key),
+            serde_json::json!({"init_index": init, "actions": acts.iter().map(|a| format!("{:?}", a)).collect::<Vec<_>>(), "reached_state": if st.len() > 600 { st[..600].to_string() } else { st }}),
         );
     }
     if o.violations.is_empty() && o.completed_depth < declared_depth && *o.layers.last().unwrap_or(&1) != 0 {
